@@ -35,6 +35,8 @@ pub struct Target {
     pub child: Child, pub pid: i32, pub stdin: ChildStdin, pub reader: BufReader<ChildStdout>,
     pub facts: HashMap<String, String>, pub fact_list: Vec<(String, String)>, pub tids: Vec<i32>, pub shared: std::fs::File, pub scen_path: String,
 }
+/// when set, targets are spawned from the copy of the target program that is linked at a fixed address (not position independent)
+pub static FIXED_ADDRESS_TARGET: std::sync::atomic::AtomicBool = std::sync::atomic::AtomicBool::new(false);
 static COUNTER: std::sync::atomic::AtomicUsize = std::sync::atomic::AtomicUsize::new(0);
 pub fn exe_dir() -> std::path::PathBuf { std::env::current_exe().unwrap().parent().unwrap().parent().unwrap().to_path_buf() }
 impl Target {
@@ -43,7 +45,7 @@ impl Target {
         std::fs::create_dir_all(workdir).ok();
         let scen_path = format!("{workdir}/scenario-{}-{k}.txt", std::process::id());
         std::fs::write(&scen_path, scen.text()).map_err(|e| e.to_string())?;
-        let tgt = exe_dir().join("tgt");
+        let tgt = exe_dir().join(if FIXED_ADDRESS_TARGET.load(std::sync::atomic::Ordering::SeqCst) { "tgt_nopie" } else { "tgt" });
         let mut c = Command::new(&tgt);
         c.arg(&scen_path).stdin(Stdio::piped()).stdout(Stdio::piped()).stderr(Stdio::null());
         unsafe { c.pre_exec(|| { libc::prctl(libc::PR_SET_PDEATHSIG, libc::SIGKILL); libc::setpgid(0, 0); Ok(()) }); }
